@@ -49,8 +49,8 @@ Judge(e, O) ==
          /\ UnpackShape(S, p) /\ UnpackDisc(S, p)
          /\ Agree(UnpackPost(S, p), O) /\ NonInterf(S, O, {})
     [] e.ev = "mutate" ->
-         /\ e.r \in DOMAIN O.mem
-         /\ LET p == [x |-> e.x, r |-> e.r, c |-> O.mem[e.r]] IN
+         /\ e.r \in DOMAIN O.mem /\ e.x \in O.live
+         /\ LET p == [x |-> e.x, r |-> e.r, c |-> O.mem[e.r], b |-> O.bk[e.x]] IN
             /\ MutateShape(S, p)
             /\ Agree(MutatePost(S, p), O) /\ NonInterf(S, O, {e.x})
     [] e.ev = "scribble" ->
